@@ -754,7 +754,7 @@ class VM:
             self._discard_frame_state(popped_frame)
             # For constructor calls, return the new object unless result is an object
             if popped_frame.is_constructor_call:
-                if not isinstance(result, JSObject):
+                if not isinstance(result, (JSObject, JSFunction)):
                     result = popped_frame.new_target
             self.stack.append(result)
 
